@@ -270,6 +270,18 @@ static Result check_dat(const J &c)
 static J gen_malformed(Chooser &ch)
 {
   J c = gen_dat(ch);
+  if (ch.chance(20))
+    {
+      // an option combination the documentation excludes: 'convert spherical = true' is only allowed in 3D. Every order of the
+      // option lines is generated (dat_text rotates them), so the refusal must not depend on which line comes first.
+      for (int attempt = 0; attempt < 12 && c.at("dim").num() != 2; ++attempt) c = gen_dat(ch);
+      if (c.at("dim").num() == 2)
+        {
+          c["convert_spherical"] = true;
+          c["kind"] = 3;
+          return c;
+        }
+    }
   // break one data row
   std::vector<size_t> idx;
   for (size_t i = 0; i < c.at("rows").size(); ++i) if (c.at("rows")[i].is_arr()) idx.push_back(i);
@@ -278,7 +290,7 @@ static J gen_malformed(Chooser &ch)
   const int kind = static_cast<int>(ch.range(0, 2));
   if (kind == 0) row.a.pop_back();                       // too few columns
   else if (kind == 1) row.a.push_back(J("1.5"));         // too many columns
-  else row[ch.index(row.size())] = J(ch.pick<std::string>({"abc", "1.2.3", "--5", "1e", "x12"})); // not a number
+  else row[ch.index(row.size())] = J(ch.pick<std::string>({"abc", "1.2.3", "--5", "1e", "x12", "120e3m", "7d5", "15:30", "1e5km", "0x1p3z"})); // not a number
   c["kind"] = kind;
   return c;
 }
@@ -301,7 +313,7 @@ static Result check_malformed(const J &c)
   { std::istringstream is(out); std::string l; bool first = true; while (std::getline(is, l)) { if (first) { first = false; continue; } if (!l.empty() && l.find("rror") == std::string::npos && l.find("what()") == std::string::npos && l.find("terminate") == std::string::npos) printed++; } }
   const bool reported = rc != 0 || out.find("rror") != std::string::npos || out.find("AssertThrow") != std::string::npos;
   if (!reported && printed >= data_rows)
-    return Result::fail("dat-malformed-row-accepted", "a data file with a malformed row (kind " + std::to_string(static_cast<int>(c.at("kind").num())) + ") produced a complete table and exit status 0");
+    return Result::fail(c.at("kind").num() == 3 ? "dat-2d-convert-spherical-accepted" : "dat-malformed-row-accepted", c.at("kind").num() == 3 ? std::string("a 2D data file with 'convert spherical = true' (documented as only allowed in 3D) produced a complete table and exit status 0; option lines: ") + dat_text(c).substr(0, 160) : "a data file with a malformed row (kind " + std::to_string(static_cast<int>(c.at("kind").num())) + ") produced a complete table and exit status 0");
   return r;
 }
 
@@ -310,6 +322,6 @@ int main(int argc, char **argv)
   return run_main("C17", argc, argv,
   {
     {"dat_table", "worlds (1..4 features, optional cross section) x data files: dim 2/3, 0..5 compositions, 0..2 grain compositions x 0..3 grains, convert spherical, comma or space separated, option lines in any order, comment lines interleaved, 1..30 rows with coordinates spelled in four number formats; oracle: header names = the requested columns, every row = input tokens verbatim + the library's values printed with the stream's default precision. Non-trivial: row inside a feature with non-zero values in >=2 column groups", 40, gen_dat, check_dat},
-    {"malformed_rows", "the same with one row broken (too few / too many columns, a non-numeric token): the tool must exit non-zero or print an error, never a complete table", 25, gen_malformed, check_malformed},
+    {"malformed_rows", "the same with one row broken (too few / too many columns, a token that is not a number or only starts like one: 'abc', '1.2.3', '120e3m', '7d5', '15:30'), or (20%) a 2D file that sets 'convert spherical = true' with the option lines in any order: the tool must exit non-zero or print an error, never a complete table", 25, gen_malformed, check_malformed},
   });
 }
